@@ -1011,6 +1011,77 @@ def _empty_test(test, names) -> bool:
     return False
 
 
+def _subdomain_propagation(model, rep):
+    """'named subdomains still cover the same regions': every _adaptive
+    must hand the subdomains on.  First-order classes pass a computed map to
+    replace(_subdomains=...) (the maps themselves are R3/R5); classes that
+    refine through another class are interpreted on a stub mesh: the result
+    must carry this mesh's subdomains as propagated by the refining class."""
+    from .c12 import interpret_delegate, SELF_SUB
+    R4 = "C13-R4"
+    n = 0
+    for c in model.all_classes():
+        fn = c.methods.get("_adaptive")
+        if fn is None or not c.path.startswith("skfem/mesh/") or \
+                c.name == "Mesh":
+            continue
+        n += 1
+        cons = f"{c.name}._adaptive:subdomains-handed-on"
+        def is_build(x):
+            return isinstance(x, ast.Call) and src(x.func) == "replace" \
+                and any(kk.arg == "t" for kk in x.keywords)
+        anyb = [x for x in walk_no_nested(fn.node) if is_build(x)]
+        builds = []
+        for r_ in walk_no_nested(fn.node):
+            if not isinstance(r_, ast.Return) or r_.value is None:
+                continue
+            v = r_.value
+            if isinstance(v, ast.Name):
+                defs = [a for a in walk_no_nested(fn.node)
+                        if isinstance(a, ast.Assign) and any(
+                            isinstance(t_, ast.Name) and t_.id == v.id
+                            for t_ in a.targets)]
+                v = defs[-1].value if defs else v
+            if is_build(v):
+                builds.append(v)
+        if anyb and not builds:
+            raise AnalysisError(f"{c.name}._adaptive: builds a connectivity "
+                                f"but the returned mesh is not recognised")
+        if builds:
+            bad = None
+            for x in builds:
+                kw = {k.arg: k.value for k in x.keywords}
+                v = kw.get("_subdomains")
+                if v is None:
+                    bad = (x.lineno, "without _subdomains: the index arrays "
+                           "of the unrefined mesh are kept for new cells")
+                elif isinstance(v, ast.Constant) and v.value is None:
+                    bad = (v.lineno, "with _subdomains=None: named "
+                           "subdomains are lost")
+            if bad:
+                rep.fail(R4, fn.path, fn.short(), cons,
+                         f"the refined mesh is built {bad[1]} instead of "
+                         f"covering the same regions", bad[0])
+            else:
+                rep.ok(R4, cons, "builds the refined mesh with a "
+                                 "propagated subdomain map")
+            continue
+        res = interpret_delegate(model, c, fn, [Poly.sym("marked")])
+        rcls = res.hist[0][0]
+        if res.sub == ("refined-by", rcls, SELF_SUB):
+            rep.ok(R4, cons, f"hands its subdomains to {rcls}._adaptive and "
+                             f"takes the propagated ones over")
+        else:
+            rep.fail(R4, fn.path, fn.short(), cons,
+                     f"refines through {rcls} but the result carries "
+                     f"{'no subdomains' if res.sub is None else res.sub!r} "
+                     f"(from_mesh drops the tags): named subdomains are "
+                     f"lost - Mesh.refined only warns - instead of covering "
+                     f"the same regions", fn.lineno)
+    if n < 5:
+        raise AnalysisError(f"only {n} _adaptive implementations found")
+
+
 def _entry_points(model, rep):
     """The marked set is an array of cell *indices* (Mesh.refined: 'array of
     element indices'), so cell 0 is a member like any other.  (a) No
@@ -1112,7 +1183,9 @@ def _entry_points(model, rep):
                 elif isinstance(v, ast.Name) and v.id in selfal:
                     unref = "the mesh itself"
                 elif isinstance(v, ast.Call) and src(v.func) in (
-                        "replace", "dataclasses.replace") and not any(
+                        "replace", "dataclasses.replace") and v.args and \
+                        isinstance(v.args[0], ast.Name) and \
+                        v.args[0].id in selfal and not any(
                         k.arg == "t" for k in v.keywords):
                     unref = "a copy with the old connectivity"
                 cons = f"{q}:return@{src(v)[:40] if v is not None else ''}"
@@ -1159,6 +1232,7 @@ def run(model: Model, rep, tier: str) -> None:
              "no truth-value reduction over it, unrefined return only for "
              "a provably empty set")
     staged(lambda: _entry_points(model, rep),
+           lambda: _subdomain_propagation(model, rep),
            lambda: _templates(model, rep), lambda: _line(model, rep),
            lambda: _sentinel_tables(model, rep),
            lambda: _tet_ancestry(model, rep))
@@ -1176,6 +1250,27 @@ _LI = "skfem/mesh/mesh_line_1.py"
 _TE = "skfem/mesh/mesh_tet_1.py"
 _SETD = "np.setdiff1d(np.unique(new_t[:, ixs]), [-1])"
 MUTANTS = [
+    ("second-order triangles refine adaptively without their subdomains",
+     ("skfem/mesh/mesh_tri_2.py",
+      "        m = replace(MeshTri1.from_mesh(self),\n"
+      "                    _subdomains=self._subdomains).refined(marked)\n"
+      "        return replace(MeshTri2.from_mesh(m), _subdomains="
+      "m._subdomains)",
+      "        return MeshTri2.from_mesh(MeshTri1.from_mesh(self)"
+      ".refined(marked))"), "C13-R4"),
+    ("second-order tetrahedra keep the unrefined subdomains (adaptive)",
+     ("skfem/mesh/mesh_tet_2.py",
+      "                    _subdomains=self._subdomains).refined(marked)\n"
+      "        return replace(MeshTet2.from_mesh(m), _subdomains="
+      "m._subdomains)",
+      "                    _subdomains=self._subdomains).refined(marked)\n"
+      "        return replace(MeshTet2.from_mesh(m), _subdomains="
+      "self._subdomains)"), "C13-R4"),
+    ("triangle refinement drops the subdomains",
+     (_TR, "            _boundaries=None,\n            _subdomains="
+      "subdomains,\n        )\n\n    def __mul__",
+      "            _boundaries=None,\n            _subdomains=None,\n"
+      "        )\n\n    def __mul__"), "C13-R4"),
     ("triangle refinement returns early for a 'falsy' marked set",
      (_TR, "    def _adaptive(self, marked):\n\n        sorted_mesh = replace(",
       "    def _adaptive(self, marked):\n\n        if not np.any(marked):\n"
@@ -1276,6 +1371,14 @@ MUTANTS = [
       "            t=t[:, :nt],\n"), "C13-R4"),
 ]
 TWINS = [
+    ("second-order triangles: propagated subdomains attached in two steps",
+     ("skfem/mesh/mesh_tri_2.py",
+      "                    _subdomains=self._subdomains).refined(marked)\n"
+      "        return replace(MeshTri2.from_mesh(m), _subdomains="
+      "m._subdomains)",
+      "                    _subdomains=self._subdomains).refined(marked)\n"
+      "        M = MeshTri2.from_mesh(m)\n"
+      "        return replace(M, _subdomains=m._subdomains)")),
     ("triangle refinement returns itself for an empty marked set",
      (_TR, "    def _adaptive(self, marked):\n\n        sorted_mesh = replace(",
       "    def _adaptive(self, marked):\n\n        if len(marked) == 0:\n"
